@@ -1,13 +1,13 @@
 SPECIFICATION Spec
 CONSTANTS
   Nodes = {1, 2}
-  Slots = {"A", "B"}
-  Keys = {"a1", "a2", "b1"}
-  SlotOf <- MCSlotOf
+  Slots = {"A"}
+  Keys = {"a1", "a2"}
+  SlotOf <- MCSlotOf3
   MaxCmds = 3
   MaxHops = 3
   WithMigration = TRUE
-  EmptyTableAtStart = FALSE
+  EmptyTableAtStart = TRUE
   AtomicAsk = FALSE
   WithFailover = FALSE
   FixRefreshOnDialError = TRUE
